@@ -1137,3 +1137,120 @@ Section HourlyRepaired.
     apply clock_only_realises_repaired. exact H.
   Qed.
 End HourlyRepaired.
+
+(* ================================================================== the guards are necessary, in general *)
+Definition is_change (k : daykind) : bool := match k with Reg => false | _ => true end.
+Definition observed_clock (d : day) (k : daykind) : Prop := hours d = clock_hours k /\ forallb hs_obs (d_rows d) = true.
+Definition unobserved_clock (d : day) (k : daykind) : Prop :=
+  hours d = clock_hours k /\ forallb (fun r => negb (hs_obs r)) (d_rows d) = true.
+
+Lemma filter_none : forall (A : Type) (p : A -> bool) l, forallb (fun x => negb (p x)) l = true -> filter p l = [].
+Proof.
+  intros A p. induction l as [|x l IH]; cbn [forallb filter]; intros H; [reflexivity|].
+  apply andb_true_iff in H. destruct H as [Hx Hl]. apply negb_true_iff in Hx. rewrite Hx. apply IH. exact Hl.
+Qed.
+
+Lemma loops_unobserved : forall days pat, Forall2 unobserved_clock days pat ->
+  forall i last, interp_loop as_coded i days last = Ok ([], last) /\ mean_loop as_coded i days last = Ok [].
+Proof.
+  intros days pat H. induction H as [|d k days pat (Hh & Ho) _ IH]; intros i last; [split; reflexivity|].
+  cbn [interp_loop mean_loop]. unfold day_count. cbn [count_rows as_coded]. unfold count_obs.
+  rewrite (filter_none _ _ _ Ho). cbn [length Nat.eqb]. apply IH.
+Qed.
+
+Section Necessity.
+  Context {V : Type}.
+  Variable mean2 : V -> V -> V.
+  Variable feat : hour_stamp -> V.
+  Variable regress : list (list V) -> list V.
+
+  (* D11, in general: without usage values EVERY frame that contains a short or a long day makes predict fail *)
+  Lemma hourly_predict_unobserved_fails : forall days pat, Forall2 unobserved_clock days pat ->
+    forallb kind_ok pat = true -> existsb is_change pat = true ->
+    exists e, hourly_predict mean2 feat regress as_coded days = Err e.
+  Proof.
+    intros days pat H Hk Hc. unfold hourly_predict, get_dst_indices.
+    destruct (loops_unobserved days pat H 0 None) as [E1 _]. rewrite E1. cbn [bind].
+    destruct (loops_unobserved days pat H 0 None) as [_ E2]. rewrite E2. cbn [bind].
+    unfold feature_matrix, correct_dst. cbn [fst snd fold_days bind].
+    set (agg := map (fun d => map feat (d_rows d)) days).
+    destruct (uniform agg); [|cbn [bind]; eexists; reflexivity].
+    assert (H24 : all24 agg = false).
+    { unfold agg. clear E1 E2. induction H as [|d k days pat (Hh & _) _ IH]; [discriminate|].
+      cbn [forallb existsb] in *. apply andb_true_iff in Hk. destruct Hk as [Hk1 Hk2].
+      cbn [map all24 forallb]. fold (all24 (map (fun d => map feat (d_rows d)) days)).
+      assert (L : length (map feat (d_rows d)) = rows_expected k).
+      { rewrite map_length, <- (clock_hours_length k Hk1), <- Hh. unfold hours. rewrite map_length. reflexivity. }
+      rewrite L. destruct k as [|h|h]; cbn [rows_expected is_change orb] in *; try reflexivity.
+      rewrite (IH Hk2 Hc). reflexivity. }
+    cbn [bind]. rewrite H24. cbn [negb]. eexists. reflexivity.
+  Qed.
+End Necessity.
+
+(* D18, in general: a short or long day whose date label cannot be resolved makes _get_dst_indices fail *)
+Lemma day_count_observed : forall d k, observed_clock d k -> kind_ok k = true -> day_count as_coded d = rows_expected k.
+Proof.
+  intros d k (Hh & Ho) Hk. unfold day_count, count_obs. cbn [count_rows as_coded]. rewrite (filter_all _ _ _ Ho).
+  rewrite <- (clock_hours_length k Hk), <- Hh. unfold hours. rewrite map_length. reflexivity.
+Qed.
+
+Definition bad_label (want : daykind -> bool) (dk : day * daykind) : Prop := want (snd dk) = true /\ d_loc (fst dk) <> None.
+Definition is_short (k : daykind) : bool := match k with Short _ => true | _ => false end.
+Definition is_long (k : daykind) : bool := match k with Long _ => true | _ => false end.
+
+Lemma interp_loop_bad_label : forall days pat, Forall2 observed_clock days pat -> forallb kind_ok pat = true ->
+  Exists (bad_label is_short) (combine days pat) ->
+  forall i last, exists e, interp_loop as_coded i days last = Err e.
+Proof.
+  intros days pat H. induction H as [|d k days pat Hd Hr IH]; intros Hk Hex i last; [inversion Hex|].
+  cbn [forallb] in Hk. apply andb_true_iff in Hk. destruct Hk as [Hk1 Hk2].
+  cbn [interp_loop]. rewrite (day_count_observed d k Hd Hk1). cbn [combine] in Hex.
+  destruct k as [|h|h]; cbn [rows_expected].
+  - change (24 =? 23) with false. cbv iota. apply IH; [exact Hk2|].
+    inversion Hex as [? ? [Hb _]|]; subst; [discriminate Hb | assumption].
+  - change (23 =? 23) with true. cbv iota. unfold day_loc. cbn [loc_by_mask as_coded].
+    destruct (d_loc d) as [e|] eqn:El; [eexists; reflexivity|].
+    destruct Hd as (Hh & _). unfold missing_hours. rewrite Hh. cbn [kind_ok] in Hk1. apply Nat.ltb_lt in Hk1.
+    rewrite (missing_short h Hk1).
+    assert (Hex' : Exists (bad_label is_short) (combine days pat)).
+    { inversion Hex as [? ? [_ Hb]|]; subst; [cbn [fst] in Hb; congruence | assumption]. }
+    destruct (IH Hk2 Hex' (S i) (Some h)) as [e E]. rewrite E. exists e. reflexivity.
+  - change (25 =? 23) with false. cbv iota. apply IH; [exact Hk2|].
+    inversion Hex as [? ? [Hb _]|]; subst; [discriminate Hb | assumption].
+Qed.
+
+Lemma mean_loop_bad_label : forall days pat, Forall2 observed_clock days pat -> forallb kind_ok pat = true ->
+  Exists (bad_label is_long) (combine days pat) ->
+  forall i last, exists e, mean_loop as_coded i days last = Err e.
+Proof.
+  intros days pat H. induction H as [|d k days pat Hd Hr IH]; intros Hk Hex i last; [inversion Hex|].
+  cbn [forallb] in Hk. apply andb_true_iff in Hk. destruct Hk as [Hk1 Hk2].
+  cbn [mean_loop]. rewrite (day_count_observed d k Hd Hk1). cbn [combine] in Hex.
+  destruct k as [|h|h]; cbn [rows_expected].
+  - change (24 =? 25) with false. cbv iota. apply IH; [exact Hk2|].
+    inversion Hex as [? ? [Hb _]|]; subst; [discriminate Hb | assumption].
+  - change (23 =? 25) with false. cbv iota. apply IH; [exact Hk2|].
+    inversion Hex as [? ? [Hb _]|]; subst; [discriminate Hb | assumption].
+  - change (25 =? 25) with true. cbv iota. unfold day_loc. cbn [loc_by_mask as_coded].
+    destruct (d_loc d) as [e|] eqn:El; [eexists; reflexivity|].
+    destruct Hd as (Hh & _). rewrite Hh. cbn [kind_ok] in Hk1. apply Nat.ltb_lt in Hk1.
+    rewrite (first_repeat_long h Hk1).
+    assert (Hex' : Exists (bad_label is_long) (combine days pat)).
+    { inversion Hex as [? ? [_ Hb]|]; subst; [cbn [fst] in Hb; congruence | assumption]. }
+    destruct (IH Hk2 Hex' (S i) (Some h)) as [e E]. rewrite E. exists e. reflexivity.
+Qed.
+
+Lemma get_dst_indices_bad_label : forall days pat, Forall2 observed_clock days pat -> forallb kind_ok pat = true ->
+  Exists (bad_label is_change) (combine days pat) ->
+  exists e, get_dst_indices as_coded days = Err e.
+Proof.
+  intros days pat H Hk Hex. unfold get_dst_indices.
+  assert (Hsplit : Exists (bad_label is_short) (combine days pat) \/ Exists (bad_label is_long) (combine days pat)).
+  { clear H Hk. induction Hex as [[d k] l [Hc Hb]|x l _ IH].
+    - destruct k as [|h|h]; [discriminate Hc | left | right]; constructor; split; try reflexivity; exact Hb.
+    - destruct IH as [IH|IH]; [left | right]; apply Exists_cons_tl; exact IH. }
+  destruct (interp_loop as_coded 0 days None) as [[interp last]|e] eqn:E1; [|eexists; reflexivity].
+  cbn [bind]. destruct Hsplit as [Hs|Hl].
+  - destruct (interp_loop_bad_label days pat H Hk Hs 0 None) as [e E]. congruence.
+  - destruct (mean_loop_bad_label days pat H Hk Hl 0 last) as [e E]. rewrite E. eexists. reflexivity.
+Qed.
